@@ -24,6 +24,12 @@ Every scenario is a finite history driven through the REAL `txdbus.client.connec
     name) and via introspection (interfaces=None, an unknown name, a list with an unknown name; the
     Introspect reply is scripted XML); the user "drops" a proxy by deleting the only strong reference.
 
+A scenario of the stream `lifecycle-reconnect` is ONE PROCESS that calls `client.connect` several times with the same
+address string on the same reactor (a reconnect after a loss; connections side by side): nothing a real process would
+not reset is reset between its connects (same reactor object, same modules, same environment), and each connect is
+judged like a single one - in particular its attempts must be the listed addresses in listed order up to the first
+one reachable THIS time.
+
 Two judgements per scenario:
   S3 correspondence  trace of observable effects + final tables  ==  Lean model (drv_c09, `life`);
                      parsed endpoint list == Lean model (`parse`)
@@ -39,9 +45,9 @@ import tempfile
 import weakref
 
 STREAMS = ['endpoints-parse', 'lifecycle-close-everywhere', 'lifecycle-random', 'lifecycle-reactions',
-           'lifecycle-extended']
+           'lifecycle-extended', 'lifecycle-reconnect']
 THEOREMS = ['connect_fires_once', 'first_reachable_in_order', 'lost_fails_everything_once', 'cancelled_only_by_caller',
-            'endpoint_prefix_table',
+            'every_connect_tries_in_written_order', 'endpoint_prefix_table',
             'address_list_in_listed_order', 'written_addresses_tried_in_order']
 TRUSTED_BASE = [
     'Twisted semantics assumed by the model and emulated by the harness: connectionLost is delivered once, no data '
@@ -72,7 +78,9 @@ RULE = ('endpoints-parse: rendered well-formed address lists plus mutations (dro
         'lines), Hello reply or error (whole or cut), 0..14 user operations (incl. the caller cancelling the Deferred of '
         'an outstanding call, timed or not) and replies/expiries on the ready '
         'connection, optionally the close; close-everywhere = every prefix of a base history followed by the close; '
-        'reactions = every assignment of the six reactions to a fixed skeleton of callbacks and calls.  distinct = '
+        'reactions = every assignment of the six reactions to a fixed skeleton of callbacks and calls; reconnect = one '
+        'process that connects 2..4 times with the same address string on the same reactor (each earlier connection lost '
+        'or left open beside the next), every pattern of reachable addresses over three connects of `A;B` and `A;B;C`.  distinct = '
         'distinct canonical JSON of (address, steps); non-trivial = the transport connected (lifecycle) / at least one '
         'entry (parse)')
 
@@ -295,9 +303,11 @@ class ProxyCb:
 class Run:
     """One scenario on the real code.  Everything observable goes to self.fx in the model's vocabulary."""
 
-    def __init__(self, M, scenario):
+    def __init__(self, M, scenario, reactor=None):
         self.M = M
         self.sc = scenario
+        self.shared_reactor = reactor      # an earlier connect of the same process made it (lifecycle-reconnect)
+        self.attempt_missing = None
         self.fx = []
         self.fired = []
         self.parse_error = None
@@ -573,9 +583,12 @@ class Run:
     # -- operations --------------------------------------------------------------------------------------------
     def start(self):
         M = self.M
-        self.reactor = M.ObservedClock()
+        self.reactor = self.shared_reactor if self.shared_reactor is not None else M.ObservedClock()
         self.reactor.on_attempt = self.note_attempts
-        k = 0
+        # attempts, unix and tcp clients recorded by the reactor before this connect belong to earlier connects
+        k = self.n_attempts_seen = len(self.reactor.connectors)
+        self.n_unix = len(self.reactor.unixClients)
+        self.n_tcp = len(self.reactor.tcpClients)
         self.reactor.sync_fail = {}
         for st in self.sc['steps']:
             if st['op'] == 'af':
@@ -605,6 +618,7 @@ class Run:
         k = self.af_count
         self.af_count += 1
         if k >= len(self.att):
+            self.attempt_missing = 'the script fails attempt #%d of this connect, which was never made' % k
             self.unexpected.append('failure of attempt #%d which was never made' % k)
             return
         if not st.get('sync'):
@@ -623,6 +637,10 @@ class Run:
 
     def op_ac(self, st):
         M = self.M
+        if self.af_count >= len(self.att):
+            self.attempt_missing = 'the script completes attempt #%d of this connect, which was never made' % self.af_count
+            self.unexpected.append('completion of attempt #%d which was never made' % self.af_count)
+            return
         self.wp = self.cur_factory.buildProtocol(None)
         self.transport = M.UnixStringTransport() if self.cur_unix else M.StringTransport()
         self.wp.makeConnection(self.transport)
@@ -952,11 +970,7 @@ def cut_at(data, permille):
     return max(1, min(len(data) - 1, len(data) * permille // 1000))
 
 
-def execute(M, sc):
-    known = getattr(M.interface.DBusInterface, 'knownInterfaces', None)     # documented class-level cache (optional)
-    saved = dict(known) if isinstance(known, dict) else None
-    saved_reactor = {n: getattr(M.client, n, None) for n in M.reactor_names}
-    run = Run(M, sc)
+def play(run, sc):
     run.reach = None
     try:
         run.start()
@@ -971,6 +985,15 @@ def execute(M, sc):
             run.finish()
     except Reach as e:
         run.reach = str(e)
+
+
+def execute(M, sc):
+    known = getattr(M.interface.DBusInterface, 'knownInterfaces', None)     # documented class-level cache (optional)
+    saved = dict(known) if isinstance(known, dict) else None
+    saved_reactor = {n: getattr(M.client, n, None) for n in M.reactor_names}
+    run = Run(M, sc)
+    try:
+        play(run, sc)
     finally:
         if saved is not None:
             known.clear()
@@ -978,6 +1001,36 @@ def execute(M, sc):
         for n, v in saved_reactor.items():
             setattr(M.client, n, v)
     return run
+
+
+def round_scenario(sc, k):
+    """The k-th connect of a multi-connect scenario, as a single-connect scenario."""
+    return {'entries': sc.get('entries'), 'address': sc['address'], 'steps': sc['rounds'][k]}
+
+
+def execute_rounds(M, sc):
+    """One process, several `client.connect` calls with the same address string on the SAME reactor.  Nothing is reset
+    between the connects (the harness's own save/restore brackets the whole scenario)."""
+    known = getattr(M.interface.DBusInterface, 'knownInterfaces', None)
+    saved = dict(known) if isinstance(known, dict) else None
+    saved_reactor = {n: getattr(M.client, n, None) for n in M.reactor_names}
+    reactor = M.ObservedClock()
+    runs = []
+    try:
+        for k in range(len(sc['rounds'])):
+            rsc = round_scenario(sc, k)
+            run = Run(M, rsc, reactor=reactor)
+            runs.append(run)
+            play(run, rsc)
+            if run.reach is not None or run.unexpected or run.stalled or run.parse_error is not None:
+                break           # the rest of the script was written for a process in which this connect went as scripted
+    finally:
+        if saved is not None:
+            known.clear()
+            known.update(saved)
+        for n, v in saved_reactor.items():
+            setattr(M.client, n, v)
+    return runs
 
 
 # ----------------------------------------------------------------------------------------------------------------
@@ -1029,6 +1082,9 @@ def step_tokens(st):
 
 
 def model_line(sc):
+    if 'rounds' in sc:
+        toks = ' /'.join(''.join(' ' + t for st in steps for t in step_tokens(st)) for steps in sc['rounds'])
+        return 'proc ' + hexs(str(os.getpid())) + ' ' + hexs(sc['address']) + toks
     toks = [t for st in sc['steps'] for t in step_tokens(st)]
     return 'life ' + hexs(str(os.getpid())) + ' ' + hexs(sc['address']) + ''.join(' ' + t for t in toks)
 
@@ -1524,6 +1580,11 @@ class ReadyGen:
 def gen_history(rng, tmp, want=None, extended=False):
     """A base history: (entries, address, steps)."""
     entries, addr = gen_address(rng, tmp)
+    return gen_steps(rng, entries, addr, want, extended)
+
+
+def gen_steps(rng, entries, addr, want=None, extended=False, ops=True):
+    """The steps of one connect with this address list (`ops`: user operations once the connection is ready)."""
     n = len(entries)
     steps = []
     if n == 0:
@@ -1553,7 +1614,7 @@ def gen_history(rng, tmp, want=None, extended=False):
                   {'op': 'hello', 'ok': ok, 'named': named, 'name': name, 'part': 'tail', 'cut': cut}]
     else:
         steps.append({'op': 'hello', 'ok': ok, 'named': named, 'name': name})
-    if not ok or not named:
+    if not ok or not named or not ops:
         return entries, addr, steps
     g = ReadyGen(rng, extended)
     if extended or rng.random() < 0.5:
@@ -1687,6 +1748,48 @@ def gen_reaction_skeletons(quick):
                     entries = [{'kind': 'unix', 'path': '/run/user/0/bus'}]
                     steps[1] = {'op': 'auth', 'hex': (b'OK ' + GUID + b'\r\nAGREE_UNIX_FD\r\n').hex(), 'tok': ['ap', 'ao']}
                     out.append({'entries': entries, 'address': render_entry(entries[0]), 'steps': steps})
+    return out
+
+
+def gen_reconnect(rng, tmp):
+    """One process, 2..4 connects with the same address string: each earlier connection is lost before the next connect
+    (a reconnect), or is left open and idle beside the next one."""
+    entries, addr = gen_address(rng, tmp, n=rng.choice([1, 2, 2, 3, 3, 4]))
+    rounds = []
+    nrounds = rng.choice([2, 2, 3, 4])
+    for k in range(nrounds):
+        last = k == nrounds - 1
+        want = rng.choice(['ready', 'ready', 'ready', 'exhaust', 'exhaust', 'auth-fail', 'hello-error', 'stall', 'pending'])
+        beside = not last and rng.random() < 0.25         # stays open (idle: no calls, no timers) beside the later ones
+        _, _, steps = gen_steps(rng, entries, addr, want, ops=(last or not beside) and rng.random() < 0.6)
+        if transport_open_after(steps) and (not beside if not last else rng.random() < 0.5):
+            steps = steps + [close_step(rng)]
+        rounds.append(steps)
+    return {'entries': entries, 'address': addr, 'rounds': rounds}
+
+
+def reconnect_skeletons():
+    """`A;B` (and `A;B;C`) with every pattern of reachable addresses over three connects of one process."""
+    ok = [{'op': 'auth', 'hex': (b'OK ' + GUID + b'\r\n').hex(), 'tok': ['ao']}, {'op': 'hello', 'ok': True}]
+    okU = [{'op': 'auth', 'hex': (b'OK ' + GUID + b'\r\nAGREE_UNIX_FD\r\n').hex(), 'tok': ['ap', 'ao']}, {'op': 'hello', 'ok': True}]
+    out = []
+    lists = [[{'kind': 'unix', 'path': '/run/verif-bus-A'}, {'kind': 'unix', 'path': '/run/verif-bus-B'}],
+             [{'kind': 'tcp', 'host': '127.0.0.1', 'port': 1}, {'kind': 'unix', 'path': '/run/verif-bus-B'},
+              {'kind': 'tcp', 'host': 'localhost', 'port': 2}]]
+    for entries in lists:
+        n = len(entries)
+        pats = list(range(n + 1))                   # index of the first reachable address; n = none is reachable
+        for combo in itertools.product(pats, repeat=3):
+            for lose in (True, False):
+                rounds = []
+                for j in combo:
+                    steps = [{'op': 'af', 'why': 'refused', 'exc': 'ConnectionRefusedError'} for _ in range(min(j, n))]
+                    if j < n:
+                        steps += [{'op': 'ac'}] + (okU if entries[j]['kind'] == 'unix' else ok)
+                        if lose:
+                            steps.append({'op': 'close', 'reason': 'lost'})
+                    rounds.append(steps)
+                out.append({'entries': entries, 'address': ';'.join(render_entry(e) for e in entries), 'rounds': rounds})
     return out
 
 
@@ -1829,6 +1932,54 @@ def check_scenarios(ctx, M, stream, scenarios, use_model=True):
             ctx.violation(key, what, inp=sc, observed=observed, expected=expected)
 
 
+def expected_attempts(run, sc):
+    """The attempts this connect must have made so far, given what the script DID to it: the listed addresses in listed
+    order, one per scripted failure, plus the one that is outstanding / was completed (None: no listed entries known)."""
+    entries = sc.get('entries')
+    if entries is None:
+        return None
+    return [entry_target(e) for e in entries[:run.af_count + 1]]
+
+
+def check_rounds(ctx, M, stream, scenarios):
+    """Multi-connect scenarios: every connect is compared with the model's (independent) run and judged like a single
+    connect; first of all its attempts must be the listed addresses in listed order, whatever earlier connects did."""
+    out = ctx.model([model_line(sc) for sc in scenarios])
+    for k, sc in enumerate(scenarios):
+        runs = execute_rounds(M, sc)
+        ctx.impl_trace()
+        ctx.case(stream, sample={'address': sc['address'], 'rounds': sc['rounds']},
+                 nontrivial=len(sc['rounds']) > 1 and any(st['op'] == 'ac' for st in sc['rounds'][0]))
+        ctx.stat('reconnect:connects=%d' % len(sc['rounds']))
+        views = out[k].split(' // ') if out is not None and out[k] is not None else None
+        for j, run in enumerate(runs):
+            rsc = round_scenario(sc, j)
+            ctx.stat('reconnect:end-of-connect=' + run.phase)
+            if run.reach is not None:
+                ctx.stat('life:harness-reach-problem')
+                break
+            if run.parse_error is None and not run.stalled:
+                want = expected_attempts(run, rsc)
+                got = [f for f in run.fx if f.startswith('at:')]
+                if want is not None and got != want and (not run.unexpected or run.attempt_missing):
+                    key = 'connect-order' if j == 0 else 'reconnect-address-list-not-retried'
+                    ctx.violation(key, 'connect #%d of one process (same address string, same reactor): its connection attempts '
+                                  'are not the listed addresses in listed order%s' % (
+                                      j + 1, '; ' + run.attempt_missing if run.attempt_missing else ''),
+                                  inp=sc, observed={'connect': j + 1, 'attempts': got, 'fired': run.fired}, expected=want)
+                    break           # the rest of the script no longer applies
+            if run.unexpected:
+                ctx.disagree(stream, sc, 'scenario not executable (connect #%d)' % (j + 1), run.unexpected[:3])
+                break
+            m = model_view(views[j]) if views is not None and j < len(views) else None
+            impl = impl_view(run)
+            thr = run.loss_thresholds
+            if m is not None and canon_view(mask_unreachable(m, impl), thr) != canon_view(impl, thr):
+                ctx.disagree(stream, sc, 'connect #%d: %s' % (j + 1, m), impl)
+            for key, what, observed, expected in judge(run, rsc):
+                ctx.violation(key, 'connect #%d of one process: %s' % (j + 1, what), inp=sc, observed=observed, expected=expected)
+
+
 def run(ctx):
     M = Mods()
     tmp = tempfile.mkdtemp(prefix='verif-c09-')
@@ -1850,9 +2001,12 @@ def _run(ctx, M, tmp):
     # ---- corpus first
     corpus = [c for _, c in ctx.corpus()]
     life = [c['input'] if 'input' in c else c for c in corpus]
+    many = [c for c in life if isinstance(c, dict) and 'rounds' in c]
     life = [c for c in life if isinstance(c, dict) and 'steps' in c]
     if life:
         check_scenarios(ctx, M, 'lifecycle-reactions', life)
+    if many:
+        check_rounds(ctx, M, 'lifecycle-reconnect', many)
 
     # ---- endpoints-parse
     n = ctx.scale(quick=1500, thorough=60000)
@@ -1896,6 +2050,10 @@ def _run(ctx, M, tmp):
             ext.append({'entries': entries, 'address': addr, 'steps': steps + [close_step(rng)], 'extended': True})
     check_scenarios(ctx, M, 'lifecycle-extended', ext, use_model=False)
 
+    # ---- one process, several connects with the same address string on the same reactor
+    rec = reconnect_skeletons() + [gen_reconnect(rng, tmp) for _ in range(ctx.scale(quick=150, thorough=4000))]
+    check_rounds(ctx, M, 'lifecycle-reconnect', rec)
+
     # ---- reactions: every assignment on a fixed skeleton
     skel = gen_reaction_skeletons(quick)
     check_scenarios(ctx, M, 'lifecycle-reactions', skel)
@@ -1906,7 +2064,9 @@ def _run(ctx, M, tmp):
 def replay(ctx, data):
     M = Mods()
     inp = data.get('input', data)
-    if isinstance(inp, dict) and 'steps' in inp:
+    if isinstance(inp, dict) and 'rounds' in inp:
+        check_rounds(ctx, M, 'lifecycle-reconnect', [inp])
+    elif isinstance(inp, dict) and 'steps' in inp:
         check_scenarios(ctx, M, 'lifecycle-reactions', [inp])
     elif isinstance(inp, dict) and 'addr' in inp:
         out = ctx.model([parse_model_line(inp)])
